@@ -88,9 +88,9 @@ PATHS = [("C", ["NEW", "REP C"], True), ("R", ["NEW", "REP R"], True), ("D", ["N
 def part_bas(ck, exe, model):
     r = ck.rng
     quick = ck.tier == "quick"
-    dims = [(1, 1), (2, 1), (1, 2), (2, 2), (3, 1), (2, 3), (3, 2), (3, 3), (2, 4)] if quick else \
+    dims = [(1, 1), (2, 1), (1, 2), (2, 2), (3, 1), (1, 3), (2, 3), (3, 2), (3, 3), (2, 4), (4, 2), (2, 3), (3, 2)] if quick else \
         [(1, 1), (2, 1), (1, 2), (2, 2), (3, 1), (1, 3), (2, 3), (3, 2), (3, 3), (2, 4), (4, 2), (3, 4), (4, 3), (4, 4), (3, 5), (5, 4)]
-    cap = 120 if quick else 1500
+    cap = 400 if quick else 3000
     jobs = []      # (cid, p, rows, cols, rn, cn)
     k = 0
     for (m, n) in dims:
@@ -108,7 +108,7 @@ def part_bas(ck, exe, model):
             jobs.append(("b%d" % k, p, rows, cols, rn, cn, "enum"))
             k += 1
     # larger LPs: random valid setBasis arrays
-    for _ in range(60 if quick else 1200):
+    for _ in range(250 if quick else 6000):
         p = lpgen.gen_around_point(r, 8 if quick else 14) if r.random() < 0.7 else lpgen.gen_random(r, 8 if quick else 14)
         rows, cols = bc.random_valid_basis(r, p, free_zero_only=(r.random() < 0.7))
         used = set()
@@ -257,7 +257,7 @@ def part_bas(ck, exe, model):
 # --------------------------------------------------------------------------------------------------------------
 def part_state(ck, exe, model):
     r = ck.rng
-    ns, nmax = (110, 8) if ck.tier == "quick" else (1500, 14)
+    ns, nmax = (400, 8) if ck.tier == "quick" else (8000, 14)
     jobs, htxt = [], ""
     for k in range(ns):
         q = r.randrange(10)
@@ -385,7 +385,9 @@ def part_state(ck, exe, model):
             if "STATESOLVE-B:st" in L and "SOLVE:resolveA" in L:
                 sa, sb = bc.kv(L["SOLVE:resolveA"]), bc.kv(L["STATESOLVE-B:st"])
                 free_nb_row = any(a.rows[i] == "Z" and a.lhs[i] is None and a.rhs[i] is None for i in range(a.m))
-                if sa["status"] != sb["status"]:
+                if sa["status"].startswith("ABORT") or sb["status"].startswith("ABORT"):
+                    ck.count("state:resolve-hit-a-limit")
+                elif sa["status"] != sb["status"]:
                     ck.violation("state-resolve-free-nonbasic-row" if free_nb_row else "state-resolve-status:%s->%s" % (sa["status"], sb["status"]),
                                  "the restored solver ends %s, the original %s" % (sb["status"], sa["status"]), ctx)
                 elif sa["status"] == "OPTIMAL":
